@@ -3,6 +3,6 @@
    ExtrOcamlString (ascii -> char, string -> char list).  No Extract Constant
    of our own; Z, N, positive, nat stay Coq datatypes. *)
 From Coq Require Import ExtrOcamlBasic ExtrOcamlString.
-From GS Require Import Spec.Base Spec.PB Judge.Sx Judge.JCommon Judge.J01 Judge.J03 Judge.J04 Judge.J05 Judge.J06 Judge.J09 Judge.J11 Judge.J13 Judge.J14 Judge.J17 Judge.J19 Judge.J20 Judge.J21 Judge.J22 Judge.J23 Judge.J24 Judge.J25 Judge.JModel.
+From GS Require Import Spec.Base Spec.PB Judge.Sx Judge.JCommon Judge.J01 Judge.J03 Judge.J04 Judge.J05 Judge.J06 Judge.J09 Judge.J11 Judge.J13 Judge.J14 Judge.J17 Judge.J19 Judge.J20 Judge.J21 Judge.J22 Judge.J23 Judge.J24 Judge.J25 Judge.J26 Judge.JModel.
 Extraction Language OCaml.
-Extraction "gsext.ml" verdict_parts judge_C05 judge_solve_case judge_C03 judge_C04 judge_C09 judge_C10 judge_C14 judge_C15 judge_C06 judge_C07 judge_C08 judge_C08s judge_C11 judge_C12 judge_C20o judge_C20m judge_C20e render17 judge_C17 judge_C19 render13 judge_C13 judge_C18 judge_solve_case_m judge_C03_m judge_C05_m judge_C09_m judge_C10_m judge_snaps judge_trace judge_parse judge_amo_struct judge_trace_pb judge_goir.
+Extraction "gsext.ml" verdict_parts judge_C05 judge_solve_case judge_C03 judge_C04 judge_C09 judge_C10 judge_C14 judge_C15 judge_C06 judge_C07 judge_C08 judge_C08s judge_C11 judge_C12 judge_C20o judge_C20m judge_C20e render17 judge_C17 judge_C19 render13 judge_C13 judge_C18 judge_solve_case_m judge_C03_m judge_C05_m judge_C09_m judge_C10_m judge_snaps judge_trace judge_parse judge_amo_struct judge_trace_pb judge_goir judge_goir_pbop judge_goir_up.
